@@ -706,11 +706,17 @@ func c18Statics() []c18Static {
 			return &c18AVPGroupPtrField{VSA: diam.NewAVP(260, 0x40, 0, g)}, []refcodec.Node{vsaNode(10415, 4)}, true
 		}},
 		{"[]*AVP-field", func(v int) (interface{}, []refcodec.Node, bool) {
-			if v >= 3 {
+			if v >= 8 {
 				return nil, nil, false
 			}
 			s := &c18AVPListField{Host: "h"}
 			var want []refcodec.Node
+			if v >= 5 {
+				// a ready-made list with room to grow (a capacity hint), as an application that
+				// prepares its common AVPs once would have it
+				s.Apps = make([]*diam.AVP, 0, 8)
+				v -= 4
+			}
 			for i := 0; i < v; i++ {
 				s.Apps = append(s.Apps, diam.NewAVP(258, 0x40, 0, datatype.Unsigned32(uint32(i+3))))
 				want = append(want, u32n(258, uint32(i+3)))
@@ -752,6 +758,28 @@ func c18StaticEval(cs C18Case) string {
 		if !bytes.Equal(got[20:], want) {
 			return fmt.Sprintf("AVPs produced by Marshal %x differ from the AVPs built by hand %x", got[20:], want)
 		}
+		// the same source, with its string members changed, marshalled into a SECOND message: the
+		// first message (not yet sent, or kept for a retransmission) must not change
+		if !strings.Contains(s.name, "AVP-field") || s.name == "[]*AVP-field" {
+			src2, _, _ := s.mk(cs.Variant)
+			sv, sv2 := reflect.ValueOf(src).Elem(), reflect.ValueOf(src2).Elem()
+			for i := 0; i < sv.NumField(); i++ {
+				switch {
+				case sv.Field(i).Kind() == reflect.String && sv.Type().Field(i).PkgPath == "":
+					sv2.Field(i).SetString(sv.Field(i).String() + ".second-message.example")
+				case sv.Type().Field(i).Type == tAVPList:
+					sv2.Field(i).Set(sv.Field(i)) // the very same ready-made list
+				}
+			}
+			m2 := diam.NewMessage(257, 0x80, 0, 3, 4, parser)
+			if err := m2.Marshal(src2); err != nil {
+				return "second Marshal failed: " + err.Error()
+			}
+			again, err := m.Serialize()
+			if err != nil || !bytes.Equal(again, got) {
+				return fmt.Sprintf("marshalling the same ready-made values into a second message changed the first message: %x, before %x (err %v)", again, got, err)
+			}
+		}
 		for _, via := range []string{"direct", "wire"} {
 			mm := m
 			if via == "wire" {
@@ -773,9 +801,89 @@ func c18StaticEval(cs C18Case) string {
 	return "harness: unknown static shape " + cs.Static
 }
 
+// c18Cross: one tag name that the default dictionary defines differently in two applications
+// (another vendor id, other flags, another data type). The same struct type is marshalled into a
+// message of the one application and then of the other (and, as a separate case, the other way
+// round) in one process: each message must get the definition ITS application resolves the name to.
+type c18CrossRow struct {
+	name  string
+	apps  [2]uint32
+	types [2]reflect.Type
+	vals  [2]interface{}
+	pay   [2][]byte
+}
+
+func c18CrossRows() []c18CrossRow {
+	tm := time.Unix(1700000000, 0).UTC()
+	ntp := refcodec.BE32(uint32(1700000000 + 2208988800))
+	return []c18CrossRow{
+		{"Service-Selection", [2]uint32{16777251, 16777265}, [2]reflect.Type{tString, tString}, [2]interface{}{"apn.a", "apn.b"}, [2][]byte{[]byte("apn.a"), []byte("apn.b")}},
+		{"RAT-Type", [2]uint32{4, 16777236}, [2]reflect.Type{tI32, tI32}, [2]interface{}{int32(1004), int32(1000)}, [2][]byte{refcodec.BE32(1004), refcodec.BE32(1000)}},
+		{"ToS-Traffic-Class", [2]uint32{16777238, 16777236}, [2]reflect.Type{tU32, tString}, [2]interface{}{uint32(46), "\x2e\x00"}, [2][]byte{refcodec.BE32(46), []byte("\x2e\x00")}},
+		{"Application-Service-Provider-Identity", [2]uint32{4, 16777236}, [2]reflect.Type{tString, tString}, [2]interface{}{"asp-1", "asp-2"}, [2][]byte{[]byte("asp-1"), []byte("asp-2")}},
+		{"User-Location-Info-Time", [2]uint32{4, 16777236}, [2]reflect.Type{tTime, tTime}, [2]interface{}{tm, tm}, [2][]byte{ntp, ntp}},
+		{"Max-Requested-Bandwidth-DL", [2]uint32{16777236, 16777265}, [2]reflect.Type{tU32, tU32}, [2]interface{}{uint32(1), uint32(4294967295)}, [2][]byte{refcodec.BE32(1), refcodec.BE32(4294967295)}},
+	}
+}
+
+func c18CrossEval(cs C18Case) string {
+	rows := c18CrossRows()
+	row := rows[cs.Variant/2]
+	c := ConfigByName("default/app4")
+	order := []int{0, 1, 0}
+	if cs.Variant%2 == 1 {
+		order = []int{1, 0, 1}
+	}
+	for _, i := range order {
+		app := row.apps[i]
+		def := c.A.D.M.FindName(app, row.name, 4294967295)
+		if def == nil {
+			return fmt.Sprintf("harness: %s not in the reference dictionary for application %d", row.name, app)
+		}
+		fl := mflag(def.Must)
+		if def.Vendor != 0 {
+			fl |= 0x80
+		}
+		want := refcodec.EncodeAVP(refcodec.Node{Code: def.Code, Flags: fl, Vendor: def.Vendor, Payload: row.pay[i]})
+		st := reflect.StructOf([]reflect.StructField{{Name: "F", Type: row.types[i], Tag: reflect.StructTag(fmt.Sprintf(`avp:"%s"`, row.name))}})
+		src := reflect.New(st)
+		src.Elem().Field(0).Set(reflect.ValueOf(row.vals[i]))
+		m := diam.NewMessage(257, 0x80, app, 1, 2, dict.Default)
+		if err := m.Marshal(src.Interface()); err != nil {
+			return fmt.Sprintf("application %d: Marshal failed: %v", app, err)
+		}
+		got, err := m.Serialize()
+		if err != nil {
+			return fmt.Sprintf("application %d: Serialize after Marshal failed: %v", app, err)
+		}
+		if !bytes.Equal(got[20:], want) {
+			return fmt.Sprintf("application %d: the AVP produced by Marshal %x differs from the AVP built by hand from the entry that application resolves %s to, %x (applications marshalled in the order %v)", app, got[20:], row.name, want, []uint32{row.apps[order[0]], row.apps[order[1]]})
+		}
+		for _, via := range []string{"direct", "wire"} {
+			mm := m
+			if via == "wire" {
+				if mm, err = diam.ReadMessage(bytes.NewReader(got), dict.Default); err != nil {
+					return "marshalled message cannot be read back: " + err.Error()
+				}
+			}
+			dst := reflect.New(st)
+			if err := mm.Unmarshal(dst.Interface()); err != nil {
+				return fmt.Sprintf("application %d, %s: Unmarshal failed: %v", app, via, err)
+			}
+			if s := c18Equal(src.Elem().Field(0), dst.Elem().Field(0)); s != "" {
+				return fmt.Sprintf("application %d: %s round trip does not reproduce the field: %s", app, via, s)
+			}
+		}
+	}
+	return ""
+}
+
 func c18Eval(cs C18Case) string {
 	c18CurUsed = ev.HS(cs.Desc())&1 == 1
 	return safely(func() string {
+		if cs.Static == "cross-application" {
+			return c18CrossEval(cs)
+		}
 		if cs.Static != "" {
 			return c18StaticEval(cs)
 		}
@@ -844,6 +952,9 @@ func runC18(ctx *ev.Ctx) {
 			}
 		}
 	}
+	for v := 0; v < 2*len(c18CrossRows()); v++ {
+		run(C18Case{AVP: -1, Static: "cross-application", Variant: v})
+	}
 	for _, s := range c18Statics() {
 		for v := 0; v < 30; v++ {
 			if _, _, ok := s.mk(v); ok {
@@ -854,7 +965,7 @@ func runC18(ctx *ev.Ctx) {
 			}
 		}
 	}
-	ctx.Rule = "struct types built with reflect.StructOf: one field for each of 24 (AVP, holder family) rows - including fields declared with a go-diameter datatype other than the dictionary's, and a vendor-specific AVP whose must-not lists V - (including a vendor-specific AVP whose must attribute does not list V and a vendor-less one whose must does) (every scalar data type, a vendor-specific AVP, Float32/64, IPv4/6, IPFilterRule, QoSFilterRule from a generated dictionary) x each Go holder type (native scalar, datatype type, net.IP, []byte, time.Time) x wrapper {T, *T, []T, []*T} x nine tag forms (plain, omitempty, each with a second key before/after, other keys carrying their own ,omitempty option before/after) x values {boundary atoms; nil pointer; nil, empty, 1-, 2- and 4-element slices}; plus static shapes: nested struct, pointer to struct, slice of structs with omitempty members (an element or a pointed-to struct all of whose members are omitted still yields its - empty - Grouped AVP), slice of pointers, anonymous embedded struct (first, after a tagged field, in the middle, of an unexported type), group in group, AVP / *AVP / []*AVP fields; the struct shapes also in a message carrying a private dictionary that defines every name used with another code, other flags and vendor ids (members of nested structs must be resolved through the message's dictionary too). Every other case marshals into a message that already holds an AVP and has been marshalled into before. Oracle: the AVP bytes Marshal produces equal the AVPs built by hand from the reference dictionary entry (code, vendor id, M from must, V from vendor, typed value); Unmarshal directly and after Serialize+ReadMessage reproduces the field values (nil == empty for slices, times by second, floats by bits)."
+	ctx.Rule = "struct types built with reflect.StructOf: one field for each of 24 (AVP, holder family) rows - including fields declared with a go-diameter datatype other than the dictionary's, and a vendor-specific AVP whose must-not lists V - (including a vendor-specific AVP whose must attribute does not list V and a vendor-less one whose must does) (every scalar data type, a vendor-specific AVP, Float32/64, IPv4/6, IPFilterRule, QoSFilterRule from a generated dictionary) x each Go holder type (native scalar, datatype type, net.IP, []byte, time.Time) x wrapper {T, *T, []T, []*T} x nine tag forms (plain, omitempty, each with a second key before/after, other keys carrying their own ,omitempty option before/after) x values {boundary atoms; nil pointer; nil, empty, 1-, 2- and 4-element slices}; plus static shapes: nested struct, pointer to struct, slice of structs with omitempty members (an element or a pointed-to struct all of whose members are omitted still yields its - empty - Grouped AVP), slice of pointers, anonymous embedded struct (first, after a tagged field, in the middle, of an unexported type), group in group, AVP / *AVP / []*AVP fields; the struct shapes also in a message carrying a private dictionary that defines every name used with another code, other flags and vendor ids (members of nested structs must be resolved through the message's dictionary too). Six tag names the default dictionary defines differently in two applications (vendor id, flags or data type) are marshalled into messages of the one application, the other, and the first again, in both orders, in one process. Every struct shape is marshalled a second time, with its string members changed and its ready-made []*AVP list (built by append, or with a capacity hint) shared, into a second message: the first message must not change. Every other case marshals into a message that already holds an AVP and has been marshalled into before. Oracle: the AVP bytes Marshal produces equal the AVPs built by hand from the reference dictionary entry (code, vendor id, M from must, V from vendor, typed value); Unmarshal directly and after Serialize+ReadMessage reproduces the field values (nil == empty for slices, times by second, floats by bits)."
 	ctx.Assume = []string{"holder types are those for which the reflect code has a conversion path (AssignableTo / ConvertibleTo); Address holders carry IPv4 / IPv6 only"}
 }
 
